@@ -610,6 +610,65 @@ pub fn run(ctx: &Ctx) -> Report {
         rep.merge(r);
     }
 
+    // ---- the commands the library answers by itself, in every legal spelling, from a client that
+    //      waits for each reply before it sends the next command: COM_FIELD_LIST (table, NUL,
+    //      optional field wildcard matching everything, something or nothing; no NUL; non-ASCII),
+    //      SELECT @@ variables of every name, PING, COM_INIT_DB and USE with odd names - always a
+    //      reply or an error return, never silence
+    let n = if ctx.miri { 3 } else { ctx.n(1500, 40_000) };
+    let r = par_cases(ctx, "C20", "built-ins-in-lock-step", n, |rng, i, rep| {
+        let mut cmds = Vec::new();
+        let mut scripts = Vec::new();
+        let mut shape = String::new();
+        for _ in 0..rng.range(1, 4) {
+            match rng.below(6) {
+                0 | 1 => {
+                    let arg = field_list_arg(rng);
+                    shape.push_str(&format!("FIELD_LIST({}) ", show(&arg)));
+                    cmds.push(Cmd::field_list(&arg));
+                }
+                2 => {
+                    let var: &[u8] = *rng.pick(&[&b"max_allowed_packet"[..], b"version_comment", b"last_insert_id", b"identity", b"session.auto_increment_increment", b"x", b"", b"global.time_zone, @@session.time_zone", b"tx_isolation LIMIT 1", "caf\u{e9}".as_bytes()]);
+                    let mut q = if rng.bool() { b"SELECT @@".to_vec() } else { b"select @@".to_vec() };
+                    q.extend_from_slice(var);
+                    shape.push_str(&format!("{} ", show(&q)));
+                    cmds.push(Cmd::query(&q));
+                }
+                3 => {
+                    shape.push_str("PING ");
+                    cmds.push(Cmd::ping());
+                }
+                4 => {
+                    let name: &[u8] = *rng.pick(&[&b"db"[..], b"", b"a b", b"`q`", "sch\u{e9}ma".as_bytes(), b"x;y", b"0"]);
+                    shape.push_str(&format!("INIT_DB({}) ", show(name)));
+                    cmds.push(Cmd::init_db(name));
+                    scripts.push(Script::InitOk);
+                }
+                _ => {
+                    shape.push_str("USE ");
+                    cmds.push(Cmd::query(b"USE `shop`;"));
+                    scripts.push(Script::InitOk);
+                }
+            }
+        }
+        cmds.push(Cmd::ping());
+        let mut case = Case::new(cmds, scripts);
+        case.arrival = Arrival::Pipelined(1);
+        let obs = run_case(&case);
+        rep.evaluations += 1;
+        let d = || J::obj().set("commands", shape.clone()).set("arrival", "lock-step").set("outcome", obs.outcome.describe());
+        if i == 0 {
+            rep.sample(d());
+        }
+        judge(&obs, "built-in commands in lock-step", rep, &d);
+        if let Some(r) = &obs.world.deadlock {
+            rep.violations.push(viol("C20", "C20 request-never-answered".into(), format!("the server waits for input at offset {} although a complete request has no (flushed) reply: {} bytes written and not flushed ({})", r.pos, r.pending, shape), d()));
+        } else if obs.outcome == Outcome::Ok {
+            rep.counters.inc("built_ins_answered_in_lock_step");
+        }
+    });
+    rep.merge(r);
+
     // ---- malformed input INSIDE an established TLS session (the second handshake parse of init())
     if let Some(m) = &tlsm {
         let caps = 0x003f_a685 | wire::CLIENT_SSL;
